@@ -64,6 +64,11 @@ def consistency(spec: NetSpec, val, o, P, clamp):
     return out
 
 
+# names of element attributes / primitive arguments that a caller's dictionary of constants may well contain
+SPARE = {"lanes": 7, "lam": 7, "L": 9.5, "rho_max": 999.0, "rho_crit": 5.5, "v_free": 7.5, "a": 3.3, "C": 1.0, "turnrate": 0.3,
+         "alpha": 0.9, "N": 9, "rho": 1.0, "v": 1.0, "q": 1.0, "w": 1.0, "d": 1.0, "r": 0.1, "delta": 0.5, "phi": 9.0}
+
+
 def check_spec(spec: NetSpec, label, st: Stats, plan):
     problems = []
     P = MODEL_PARAMS[plan["pset"]]
@@ -111,6 +116,25 @@ def check_spec(spec: NetSpec, label, st: Stats, plan):
         for (vlabel, val), o in zip(base, outs):
             for sig, msg in consistency(spec, val, o, P, False):
                 problems.append((sig, f"{sym} compact={compact}, all elements named x: {msg} at {vlabel}",
+                                 dict(case, val={f"{k[0]}.{k[1]}": v for k, v in val.items()})))
+    # spare keyword arguments to to_function that no flow law of this network takes (a caller splatting one dictionary of
+    # constants, as the repository's own tests do): the reported flows are still the ones the update used
+    for sym, compact in plan["variants"][:1]:
+        st.inc("transitions", 2)
+        case = {"spec": spec.describe(), "config": label, "P": P, "sym": sym, "compact": compact, "opts": False, "spare": True}
+        try:
+            eng = env.casadi_engine(sym)
+            built = build(spec)
+            built.net.step(engine=eng, **P)
+            F = eng.to_function(built.net, compact=compact, more_out=True, **P, **{k: v for k, v in SPARE.items() if k not in P})
+            outs = eval_layout(F, Layout(spec, compact=compact, more_out=True), [v for _, v in base])
+        except Exception as e:  # noqa: BLE001
+            problems.append((f"C05/exception/{exc_site(e)}/{type(e).__name__}", f"{sym} spare keyword arguments: {exc_text(e)}", case))
+            continue
+        st.inc("executions", len(base))
+        for (vlabel, val), o in zip(base, outs):
+            for sig, msg in consistency(spec, val, o, P, False):
+                problems.append((sig, f"{sym} compact={compact}, spare keyword arguments {sorted(SPARE)}: {msg} at {vlabel}",
                                  dict(case, val={f"{k[0]}.{k[1]}": v for k, v in val.items()})))
     # the same network reached by editing another, already stepped network in place (non-initial state)
     for emode in ("links", "attachments", "replace"):
